@@ -20,7 +20,9 @@ RULE = ("two-atom sequences (2-site TDVP is exact, so the only approximation is 
         "binomial test, alpha 1e-8) -- a sharp test of the rates; (4) deterministic: with the jump threshold forced "
         "below zero the un-normalised trajectory equals the dense exp(-i H_eff t) psi0 at the end, and its squared norm "
         "the no-jump probability; (5) deterministic: with random.choices intercepted, the jump weights offered are "
-        "<psi|L^dagger L|psi> per (atom, operator) and the state after a generated jump is L psi/|L psi| on that atom.  non-trivial = >=10% of the trajectories jump and >=10% do not; distinct = case hash")
+        "<psi|L^dagger L|psi> per (atom, operator) and the state after a generated jump is L psi/|L psi| on that atom; "
+        "(6) deterministic, two-level: the emulator's jump operators (one to three effective operators, each with its own "
+        "rate) generate the same single-atom dissipator superoperator as Pulser's collapse operators.  non-trivial = >=10% of the trajectories jump and >=10% do not; distinct = case hash")
 ASSUMPTIONS = ["the Lindblad reference is the harness' dense integrator from Pulser's lindblad_data (pulser-simulation absent)",
                "statistical clauses: distribution-free Chernoff bound per (atom,time) and an exact binomial test (low power at M=120: the "
                "deterministic clauses (4) and (5) carry the quick tier); runs are "
@@ -50,11 +52,16 @@ def _cases(draw, M=300):
         kinds.append("eff")
     for k in kinds:
         if k == "eff":
-            m = [[draw(_c()) if draw(st.booleans()) else [0.0, 0.0] for _ in range(d)] for _ in range(d)]
-            if all(c == [0.0, 0.0] for row in m for c in row):
-                m[0][d - 1] = [1.0, 0.0]
-            nm["eff_noise_opers"] = [m]
-            nm["eff_noise_rates"] = [draw(rate)]
+            # one to three effective operators, each with its own rate (rates mostly differ)
+            ms, rs = [], []
+            for _ in range(draw(st.sampled_from([1, 2, 2, 3]))):
+                m = [[draw(_c()) if draw(st.booleans()) else [0.0, 0.0] for _ in range(d)] for _ in range(d)]
+                if all(c == [0.0, 0.0] for row in m for c in row):
+                    m[0][d - 1] = [1.0, 0.0]
+                ms.append(m)
+                rs.append(draw(rate))
+            nm["eff_noise_opers"] = ms
+            nm["eff_noise_rates"] = rs
         else:
             nm[k + "_rate"] = draw(rate)
     if leak:
@@ -109,6 +116,8 @@ def check_case(case) -> Result:
         cfg1 = e2e.mps_config(**kw)
     r.label(case["basis"], "leak" if case["nm"].get("with_leakage") else "noleak", *[k.replace("_rate", "") for k in case["nm"] if k.endswith("_rate")],
             "eff" if "eff_noise_opers" in case["nm"] else "no_eff", "local" if case["local"] else "global_only")
+    if len(set(case["nm"].get("eff_noise_rates", []))) > 1:
+        r.label("eff_rates_differ")
     # ---------------- dense Lindblad reference
     hd, trajs = dense.from_sequence(seq, noise_model=nm)
     basis, loc, traj, reps = trajs[0]
@@ -127,6 +136,14 @@ def check_case(case) -> Result:
     e2e.seed_all(case["seed"])
     sd0 = next(iter(PulserData(sequence=seq, config=cfg1, dt=cfg1.dt).get_sequences()))
     collapse_emu = [op.numpy() for op in sd0.lindblad_ops]
+    if d == 2:
+        # deterministic and independent of the unravelling: the emulator's jump operators must generate the same
+        # single-atom dissipator as Pulser's collapse operators (three-level effective operators: C24's known finding)
+        De, Dp = dense.dissipator_super(collapse_emu, d), dense.dissipator_super(collapse, d)
+        if np.abs(De - Dp).max() > 1e-9 * max(1.0, np.abs(Dp).max()):
+            r.fail("jump_operators_generate_another_master_equation",
+                   f"max |D_emu - D_pulser| = {np.abs(De - Dp).max():.3e} (scale {np.abs(Dp).max():.3g}); noise {case['nm']}, basis {case['basis']}")
+            return r
     extra = -0.5j * sum(L.conj().T @ L for L in collapse_emu)
     refnj = dense.Reference(kind, qids, loc, lambda t: U, grid, d=d, h_extra=extra).run()
     psi_nj = refnj.states[len(grid) - 1]
